@@ -12,60 +12,14 @@
 //! One line per event: `t=a<cell>[<held cells>],…,c<sub>[<held cells>],…` — every lock acquisition
 //! with the cells held at that moment (ascending), every probe callback likewise; cells are
 //! numbered in order of first acquisition.  `RELOCK` if a cell is acquired while the thread already holds it.
-use std::cell::RefCell;
-
 use rxrust::observer::BoxObserverThreads;
 use rxrust::ops::box_it::{BoxIt, CloneableBoxOpThreads};
 use rxrust::prelude::*;
-use rxrust::rc::verif::BEFORE_LOCK;
 
 use crate::val::{fn1, Val};
 use crate::{Case, Out};
 
-#[derive(Default)]
-struct Trace {
-  cells: Vec<(usize, fn(usize) -> bool)>,
-  tokens: Vec<String>,
-  relock: bool,
-}
-
-thread_local! {
-  static TRACE: RefCell<Trace> = RefCell::new(Trace::default());
-}
-
-fn held(t: &Trace) -> Vec<usize> {
-  t.cells.iter().enumerate().filter(|(_, (a, p))| !p(*a)).map(|(i, _)| i).collect()
-}
-
-fn on_lock(addr: usize, probe: fn(usize) -> bool) {
-  TRACE.with(|t| {
-    let mut t = t.borrow_mut();
-    let idx = match t.cells.iter().position(|(a, _)| *a == addr) {
-      Some(i) => i,
-      None => {
-        t.cells.push((addr, probe));
-        t.cells.len() - 1
-      }
-    };
-    let h = held(&t);
-    if h.contains(&idx) {
-      t.relock = true;
-      t.tokens.push(format!("RELOCK{}", idx));
-      drop(t);
-      panic!("RELOCK");
-    }
-    let hs: Vec<String> = h.iter().map(|x| x.to_string()).collect();
-    t.tokens.push(format!("a{}[{}]", idx, hs.join(".")));
-  });
-}
-
-fn on_cb(sub: usize) {
-  TRACE.with(|t| {
-    let mut t = t.borrow_mut();
-    let hs: Vec<String> = held(&t).iter().map(|x| x.to_string()).collect();
-    t.tokens.push(format!("c{}[{}]", sub, hs.join(".")));
-  });
-}
+use crate::locktrace::{self, on_cb};
 
 struct LockProbe(usize);
 impl Observer<Val, i64> for LockProbe {
@@ -86,7 +40,8 @@ impl Observer<Val, i64> for LockProbe {
 type TB = CloneableBoxOpThreads<Val, i64>;
 
 pub fn run(case: &Case, out: &mut Out) {
-  TRACE.with(|t| *t.borrow_mut() = Trace::default());
+  locktrace::start();
+  locktrace::pause();
   let subject: SubjectThreads<Val, i64> = SubjectThreads::default();
   let idle: SubjectThreads<Val, i64> = SubjectThreads::default();
   let mut handles: Vec<Option<rxrust::subscription::BoxSubscriptionThreads>> = vec![];
@@ -105,10 +60,10 @@ pub fn run(case: &Case, out: &mut Out) {
     handles.push(Some(p.actual_subscribe(LockProbe(u))));
   }
   let _keep: Vec<BoxObserverThreads<Val, i64>> = vec![];
-  BEFORE_LOCK.with(|h| *h.borrow_mut() = Some(Box::new(on_lock)));
+  locktrace::resume();
   for (k, ev) in case.events.iter().enumerate() {
     out.cur = k;
-    TRACE.with(|t| t.borrow_mut().tokens.clear());
+    let _ = locktrace::take();
     let mut s = subject.clone();
     let r = std::panic::catch_unwind(std::panic::AssertUnwindSafe(|| match ev[0].atom() {
       "next" => s.next(Val::parse(&ev[1])),
@@ -126,12 +81,12 @@ pub fn run(case: &Case, out: &mut Out) {
       }
       e => panic!("unknown event {}", e),
     }));
-    let toks = TRACE.with(|t| t.borrow().tokens.join(","));
+    let toks = locktrace::take();
     out.emit(k, format!("t={}", toks));
     if r.is_err() {
       break;
     }
   }
-  BEFORE_LOCK.with(|h| *h.borrow_mut() = None);
+  locktrace::stop();
   std::mem::forget(handles);
 }
